@@ -3,6 +3,9 @@ package props
 import (
 	"bytes"
 	"fmt"
+	"github.com/dave/dst"
+	"github.com/dave/dst/decorator/resolver/goast"
+	"github.com/dave/dst/decorator/resolver/guess"
 	"go/ast"
 	"go/parser"
 	"go/scanner"
@@ -314,6 +317,26 @@ func checkC03(src string) core.Outcome {
 	if f3, perr := decorator.Parse(src); c03ThirdPrint && perr == nil {
 		if out3, err3 := printFileFRBeforeAnother(f3, true); err3 == nil && out3 != out {
 			return core.Outcome{Key: "print-changes-after-filerestorer-reuse", Desc: fmt.Sprintf("the restored file prints differently once the FileRestorer that produced it has restored another file\ninput: %q\n%s", src, diffDesc(out, out3))}
+		}
+	}
+	// files with imports: decorated with import resolution (qualified identifiers collapse into path-carrying
+	// identifiers) and printed with import management, nothing edited in between, the text must be the same
+	if c03ThirdPrint && strings.Contains(src, "import") && !strings.Contains(src, "\"C\"") {
+		var out4 string
+		var err4 error
+		if p := guard(func() {
+			var df *dst.File
+			df, err4 = decorator.NewDecoratorWithImports(token.NewFileSet(), "example.com/local", goast.New()).Parse(src)
+			if err4 == nil {
+				var buf bytes.Buffer
+				err4 = decorator.NewRestorerWithImports("example.com/local", guess.New()).Fprint(&buf, df)
+				out4 = buf.String()
+			}
+		}); p != "" {
+			return core.Outcome{Key: "panic:import-managed:" + short(p, 60), Desc: fmt.Sprintf("decorate+print with import management panicked: %s\ninput: %q", p, src)}
+		}
+		if err4 == nil && out4 != out {
+			return core.Outcome{Key: "import-managed-print-differs", Desc: fmt.Sprintf("the unedited file prints differently when decorated with import resolution and restored with import management\ninput: %q\n%s", src, diffDesc(out, out4))}
 		}
 	}
 	ref, ferr := gofmt(src)
